@@ -15,6 +15,13 @@ Line-protocol driver for the temporal change / cumulation model (property C13).
 <initial> none | v=<cell> | <series>
 <span>    none | F:a:b:step    (a, b serials or `-` for an open end)
 
+  mchange <c> <kind> <shiftarg> <col_0> … <col_{nv-1}>
+  mconv   <c> <conv> <col_0> … <col_{nv-1}>
+  mcum    <c> <kind> <shiftarg> <span> <nv> <col_0> … <col_{nv-1}> <initial_0> … <initial_{m-1}>
+         several variants: every `<col_j>` is `F:start:cells` with the same start and length (untrimmed);
+         `<shiftarg>` = integer | keyword | `f=num/den` (a Python float) | `s=<text>` (any other string);
+         reply `F:start:cells_0|cells_1|…` trimmed over ALL variants, or `empty`
+
 Reply: `F:start:cell,…` (trimmed) | `empty` | `err:bad` | `err:mixed`; `bad-op` for anything unparsable.
 -/
 import IrisVerif.Model.Temporal
@@ -104,6 +111,42 @@ def parseSpan (s : String) : Option (Option (R Span)) :=
       pure (some (Span.make ea eb st))
     | _ => none
 
+def parseShiftArg (s : String) : Option ShiftArg :=
+  if s.startsWith "f=" then (parseRat? (s.drop 2).toString).map .float
+  else if s.startsWith "s=" then some .otherString
+  else match s with
+    | "yoy" => some (.kw .yoy) | "soy" => some (.kw .soy) | "eopy" => some (.kw .eopy) | "tty" => some (.kw .tty)
+    | k => k.toInt?.map .int
+
+/-- one column word -> (freq, start, cells) without trimming -/
+def parseColumn (c : Codec α) (s : String) : Option (Freq × Int × Array (Option α)) :=
+  match s.splitOn ":" with
+  | [f, start, cells] => do
+    let f ← Freq.ofLetter? f
+    let start ← start.toInt?
+    let ws := if cells = "" then [] else cells.splitOn ","
+    let cs ← ws.mapM (parseCell c)
+    pure (f, start, cs.toArray)
+  | _ => none
+
+def parseMSer (c : Codec α) (ws : List String) : Option (MSer α) := do
+  let cols ← ws.mapM (parseColumn c)
+  match cols with
+  | [] => none
+  | (f, start, c0) :: _ =>
+    if cols.all (fun x => x.1 == f && x.2.1 == start && x.2.2.size == c0.size) then
+      pure (MSer.ofColumns f start c0.size (cols.map (·.2.2)))
+    else none
+
+def showMSer (c : Codec α) (m : MSer α) : String :=
+  if m.isEmpty then "empty"
+  else m.freq.letter ++ ":" ++ toString m.lo ++ ":" ++
+    "|".intercalate ((List.range m.nv).map (fun j => ",".intercalate ((m.cells j).map (showCell c))))
+
+def showMResult (c : Codec α) : R (MSer α) → String
+  | .ok m => showMSer c m
+  | .error e => showErr e
+
 /-- kinds whose formula uses `log`, `exp` or `**` need the float carrier -/
 def changeNeedsSym : ChangeKind → Bool
   | .diffLog | .adiffLog | .apct | .aroc => true
@@ -140,6 +183,27 @@ def stepWith (c : Codec α) (S : Sym α) (exact : Bool) (ws : List String) : Str
         | some (.ok sp) => showResult c (temporalCumulation S kind shift ini (some sp) ser)
         | none => showResult c (temporalCumulation S kind shift ini none ser)
     | _, _, _, _, _ => "bad-op"
+  | "mchange" :: kind :: shift :: cols =>
+    match parseChangeKind kind, parseShiftArg shift, parseMSer c cols with
+    | some kind, some a, some m =>
+      if exact && changeNeedsSym kind then "bad-op" else showMResult c (mchange S kind a m)
+    | _, _, _ => "bad-op"
+  | "mconv" :: kind :: cols =>
+    match parseConvKind kind, parseMSer c cols with
+    | some kind, some m => if exact && convNeedsSym kind then "bad-op" else showMSer c (mconvert S kind m)
+    | _, _ => "bad-op"
+  | "mcum" :: kind :: shift :: span :: nv :: rest =>
+    match parseCumKind kind, parseShiftArg shift, parseSpan span, nv.toNat? with
+    | some kind, some a, some span, some nv =>
+      match parseMSer c (rest.take nv), (rest.drop nv).mapM (fun w => parseInit c w) with
+      | some m, some inits =>
+        if exact && cumNeedsSym kind then "bad-op"
+        else match span with
+          | some (.error e) => showErr e
+          | some (.ok sp) => showMResult c (mcum S kind a inits (some sp) m)
+          | none => showMResult c (mcum S kind a inits none m)
+      | _, _ => "bad-op"
+    | _, _, _, _ => "bad-op"
   | "cumv" :: kind :: shift :: span :: j :: ser :: inits =>
     match parseCumKind kind, parseShift shift, parseSpan span, j.toNat?, parseSeries c ser,
         inits.mapM (fun w => if w = "none" then none else parseInit c w) with
